@@ -347,7 +347,8 @@ func short(d string) string {
 	return d
 }
 
-func run(c Case, dir string, res *lib.Result) string {
+func run(c Case, dir string, res *lib.Result) (ret string) {
+	defer res.Recover(c)
 	w, err := build(c, dir)
 	if err != nil {
 		res.Notes = append(res.Notes, "setup failed: "+err.Error())
